@@ -26,6 +26,13 @@ def statement_error_token_contract(p, resolver, addr, line, file, n_statement_to
     code = _code_gen([a], resolver, {})
     check("some_node", len(code) >= 1)
     raised = 0
+    # the label pass sees the statement first (an operand without a size suffix is evaluated there to guess its width): whatever it raises about
+    # the statement is a NodeError carrying the statement's location too -- never a bare SymbolNotDefined without file and line
+    for node in code:
+        try:
+            node.pc_after(addr)
+        except NodeError as e:
+            check("label_pass_error_attributed_to_the_statement_line", on_statement_line(e.file_info, line, file))
     for node in code:
         try:
             node.emit(addr)
@@ -33,3 +40,21 @@ def statement_error_token_contract(p, resolver, addr, line, file, n_statement_to
             raised += 1
             check("error_attributed_to_the_statement_line", on_statement_line(e.file_info, line, file))
     check("undefined_symbol_is_reported", raised >= 1)
+
+
+def symbol_node_contract(node, addr, v, defined, outer_scope):
+    """`name = expr` / a deferred macro argument in the label pass: when the expression can be evaluated the name is bound to its value in the
+    scope the node runs in; when it mentions an undefined symbol the failure ESCAPES (C14: this is the only place the expression is evaluated,
+    so swallowing it here reports a source that cannot be assembled as a success) -- and the evaluation scope switch is undone either way."""
+    r = node.resolver
+    scope0 = r.current_scope
+    try:
+        a = node.pc_after(addr)
+    except Exception:
+        check("fails_only_for_an_undefined_symbol", not defined)
+        check("binding_scope_current_again_after_a_failure", r.current_scope is scope0)
+        return
+    check("undefined_symbol_is_reported", defined)
+    check("address_unchanged", a is addr)
+    check("bound_in_the_binding_scope", scope0.symbols.get(node.symbol_name) == v)
+    check("binding_scope_current_again", r.current_scope is scope0)
